@@ -328,8 +328,8 @@ PLANS["C19"]["drive"].append(dict(name="airdrop", menu=menu(MENU_DISP, items=AIR
 PLANS["C11"]["drive"][1]["menu"] = menu(PLANS["C11"]["drive"][1]["menu"], items=AIRDROP_ITEMS)
 
 # peg-fee paths after rewards AND slashing (stSei rate above 1, bSei rate below the threshold), high fee rates
-MENU_PEG = {"items": {"bond": 4, "bond_st": 4, "fund_disp": 4, "bond_rewards": 5, "slash": 5, "convert_st_b": 7, "convert_b_st": 5, "unbond_b": 4, "unbond_st": 1, "advance": 3, "check_slashing": 1},
-            "amax": 600, "dts": [1, 3, 5], "slash_div": [3, 10], "probes": [], "probe_every": 0,
+MENU_PEG = {"items": {"bond": 4, "bond_st": 4, "fund_rebond": 4, "bond_rewards": 6, "slash": 4, "convert_st_b": 8, "convert_b_st": 4, "unbond_b": 3, "unbond_st": 1, "advance": 2, "check_slashing": 1},
+            "amax": 1000, "dts": [1, 3, 5], "slash_div": [10, 10, 3], "probes": [], "probe_every": 0,
             "vary": {"fee": [[0, 500000000, 0], [0, 333333333, 333333333], [1, 0, 0], [0, 50000000, 0]], "thr": [[1, 0, 0], [0, 950000000, 0]], "periods": [[2, 5]]}}
 PLANS["C05"]["drive"] = PLANS["C05"]["drive"] + [dict(name="peg", menu=MENU_PEG, runs=(150, 4000), len=40, consts=dict(MaxBatch=8))]
 PLANS["C03"]["drive"] = PLANS["C03"]["drive"] + [dict(name="peg", menu=MENU_PEG, runs=(150, 4000), len=40, consts=dict(MaxBatch=8))]
